@@ -48,6 +48,8 @@ def replay(rec, ctx):
     nb = rec["nb"] * nu
 
     class Att(BeamAttenuator):
+        clamp_sigma = 5.0             # read by the beam when it builds its bounding geometry
+
         def density(self, x, y, z):
             return nb
 
@@ -61,16 +63,20 @@ def replay(rec, ctx):
     beam.attenuator = Att()
     d, c = EC.element("d"), EC.element("c")
     model = BeamCXLine(Line(c, 5, (8, 7))) if m == "bcx" else BeamEmissionLine(Line(d, 0, (3, 2)))
-    model.beam = beam
-    model.plasma = pl
-    model.atomic_data = ad
+    if rec.get("prior", "none") == "mutated":
+        beam.models = [model]          # attached the public way: the beam configures the model and re-attaches it on every rebuild
+    else:
+        model.beam = beam
+        model.plasma = pl
+        model.atomic_data = ad
     viol = []
 
     def bad(what, detail):
         viol.append({"sig": f"{m}:{what}" + ("" if rec.get("prior", "none") == "none" else f"@after-other-{rec['prior']}"), "detail": f"{detail} | dens={rec['dens']} temp={rec['temp']} nb={rec['nb']} flow={rec.get('flow')}"})
     bdir = Vector3D(0, 0, 1).transform(xf)          # beam axis in plasma space
     ev = lambda: model.emission(Point3D(0, 0, 0.5), Point3D(0.1, 0.2, 0.3), bdir, Vector3D(1, 0, 0), Spectrum(c03.LO, c03.HI, c03.BINS))   # noqa: E731
-    EC.prior_phase(rec, rates, model, ev, calls, ad, pl, beam=beam)
+    ev0 = lambda: model.emission(Point3D(0, 0, 0.5), Point3D(*EC.ELSEWHERE), bdir, Vector3D(1, 0, 0), Spectrum(c03.LO, c03.HI, c03.BINS))   # noqa: E731
+    EC.prior_phase(rec, rates, model, ev, calls, ad, pl, beam=beam, evaluate_elsewhere=ev0)
     sp = Spectrum(c03.LO, c03.HI, c03.BINS)
     try:
         out = model.emission(Point3D(0, 0, 0.5), Point3D(0.1, 0.2, 0.3), bdir, Vector3D(1, 0, 0), sp)
